@@ -66,7 +66,7 @@ func c11Obs(t *Term, variant int) string {
 		probes = append(probes, OL(
 			guard(func() string { return OStr(fs.Position(parsley.Pos(p)).String()) }),
 			guard(func() string {
-				return OStr(fs.ErrorWithPosition(parsley.NewError(parsley.Pos(p), errors.New("e"))).Error())
+				return OStr(fs.ErrorWithPosition(parsley.NewError(parsley.Pos(p), errors.New("e%d"))).Error())
 			})))
 	}
 	for _, f := range files {
